@@ -182,7 +182,11 @@ func linOfX(v ssa.Value, sym symNamer, phiRes func(*ssa.Phi) ssa.Value, ov func(
 							}
 						}
 					}
-					return linSym("(" + lx.String() + " " + x.Op.String() + " " + ly.String() + ")")
+					name := "(" + lx.String() + " " + x.Op.String() + " " + ly.String() + ")"
+					if x.Op == token.REM && len(ly.Coef) == 0 && ly.K > 0 {
+						remRegistry[name] = remInfo{X: lx, C: ly.K, Quo: "(" + lx.String() + " / " + ly.String() + ")"}
+					}
+					return linSym(name)
 				}
 			}
 		case *ssa.UnOp:
@@ -308,4 +312,30 @@ func hasIneq(ls []lit, f linForm) bool {
 		}
 	}
 	return false
+}
+
+// remRegistry remembers what the structural symbols "(x % c)" stand for, so that x % c can be rewritten as
+// x - c*(x / c) when two forms are compared (normRem).
+type remInfo struct {
+	X   linForm
+	C   int64
+	Quo string
+}
+
+var remRegistry = map[string]remInfo{}
+
+// normRem rewrites every "(x % c)" symbol of f as x - c*(x / c).
+func normRem(f linForm) linForm {
+	if !f.OK {
+		return f
+	}
+	out := linConst(f.K)
+	for sym, cf := range f.Coef {
+		if ri, ok := remRegistry[sym]; ok {
+			out = out.add(ri.X.scale(cf), 1).add(linSym(ri.Quo).scale(cf*ri.C), -1)
+			continue
+		}
+		out = out.add(linSym(sym).scale(cf), 1)
+	}
+	return out
 }
